@@ -110,7 +110,7 @@ def _gen_for(stream, seed):
             if ev["type"] != "arbitrary":
                 for kk in ev["impact"]:
                     ev["impact"][kk] *= rng.choice([3.0, 8.0, 20.0])
-        if rng.random() < 0.4:
+        if rng.random() < 0.5:
             # an industry without capital hit by a capital-destroying event: must be rejected, not divided away
             tb, cfg = sc["table"], sc["model"]
             N = tb["m"] * tb["n"]
@@ -224,6 +224,21 @@ def _gen_for(stream, seed):
                          "impact": {f"{r}|{ssec}": rng.choice([0.9, 0.95, 1.0]) for r in regs}, "recovery_tau": 5, "curve": "linear"}]
         sc["stream"] = "sudden"
         return sc
+    if stream == "fastrebuild":
+        # a small rebuilding event whose rebuilding time is shorter than the step: every step presents more than what
+        # remains and is served almost in full (the ledger must stop at zero, not below)
+        dt = rng.choice([2, 3, 5])
+        sc = scen.gen_scenario(seed, "shocked", dt=dt, nev=1, T=rng.choice([8, 10]), max_occ=dt, types=["rebuild"])
+        for ev in sc["events"]:
+            if ev["type"] == "rebuild":
+                ev["rebuild_tau"] = rng.choice([1, dt - 1]) if dt > 2 else 1
+                f = rng.choice([1e-3, 1e-4, 1e-5])
+                ev["impact"] = {k: v * f for k, v in ev["impact"].items()}
+                if ev.get("house"):
+                    ev["house"] = {k: v * f for k, v in ev["house"].items()}
+                ev["dur"] = 1
+        sc["stream"] = "fastrebuild"
+        return sc
     if stream == "earlydt":
         # step length > 1 and events that occur (and may even end) within the first step: the second step, at
         # t = dt, already sees their shock / reconstruction demand
@@ -232,8 +247,15 @@ def _gen_for(stream, seed):
                                types=rng.choice([["rebuild"], ["rebuild", "recovery"], ["recovery", "arbitrary"], ["rebuild", "arbitrary"]]))
         for ev in sc["events"]:
             ev["dur"] = rng.choice([1, 1, 2, dt])
-            if ev["type"] == "rebuild" and rng.random() < 0.5:
-                ev["rebuild_tau"] = rng.choice([1, 2, dt + 1, 30])
+            if ev["type"] == "rebuild" and rng.random() < 0.7:
+                ev["rebuild_tau"] = rng.choice([1, 1, 2, dt + 1, 30])
+                if ev["rebuild_tau"] < dt and rng.random() < 0.6:
+                    # a small event rebuilt faster than one step: what is presented (remaining x dt / tau) exceeds what
+                    # remains, and it is served almost in full
+                    f = rng.choice([1e-3, 1e-5])
+                    ev["impact"] = {k: v * f for k, v in ev["impact"].items()}
+                    if ev.get("house"):
+                        ev["house"] = {k: v * f for k, v in ev["house"].items()}
         sc["stream"] = "earlydt"
         return sc
     if stream == "negfd":
